@@ -7,6 +7,8 @@ import (
 	"go/constant"
 	"go/types"
 	"math/big"
+	"regexp"
+	"strconv"
 	"strings"
 
 	"golang.org/x/tools/go/ssa"
@@ -297,6 +299,19 @@ func (fr *Frame) evalSpec(e SExpr, ctx *specCtx) SV {
 		}
 		if b.Nil {
 			b.Term = g.S.zero(a.T)
+			b.T = a.T
+		}
+		if a.T != nil && b.T != nil && g.S.sortOf(a.T) != g.S.sortOf(b.T) {
+			// branches of different Go types: box both into interface values
+			any := types.NewInterfaceType(nil, nil)
+			at, bt := a.Term, b.Term
+			if !isIface(a.T) {
+				at = g.S.box(a.T, a.Term)
+			}
+			if !isIface(b.T) {
+				bt = g.S.box(b.T, b.Term)
+			}
+			return SV{Term: ite(c, at, bt), K: svGo, T: any}
 		}
 		return SV{Term: ite(c, a.Term, b.Term), K: a.K, T: a.T}
 	case *SQuant:
@@ -326,7 +341,7 @@ func (fr *Frame) evalSpec(e SExpr, ctx *specCtx) SV {
 		seenT := map[string]bool{}
 		if len(qnames) == 1 {
 			for _, t := range trig {
-				if strings.Contains(t, qnames[0]) && !seenT[t] && !nestedQuantVar(t, qnames[0]) {
+				if strings.Contains(t, qnames[0]) && !seenT[t] && !nestedQuantVar(t, qnames[0]) && g.goodPatternDeep(t, 0) {
 					seenT[t] = true
 					pats += " :pattern (" + t + ")"
 				}
@@ -371,7 +386,12 @@ func (fr *Frame) evalSpec(e SExpr, ctx *specCtx) SV {
 	case *SIndex:
 		base := fr.evalSpec(x.X, ctx)
 		i := fr.evalSpec(x.I, ctx)
-		idx := g.mathToIdx(g.asMath(i))
+		var idx string
+		if i.K == svGo && i.T != nil && is64(i.T) {
+			idx = i.Term
+		} else {
+			idx = g.mathToIdx(g.asMath(i))
+		}
 		switch u := base.T.Underlying().(type) {
 		case *types.Slice:
 			key, _ := g.elemKey(u.Elem())
@@ -423,10 +443,22 @@ func (fr *Frame) evalSpec(e SExpr, ctx *specCtx) SV {
 	return SV{}
 }
 
-// nestedQuantVar: the trigger mentions another (inner) bound variable q_... besides name -> unusable.
+// nestedQuantVar: the trigger mentions a variable bound by a quantifier nested inside the one binding
+// name (fresh numbers grow inwards) -> unusable as a trigger of the outer quantifier.
+var reQVar = regexp.MustCompile(`q_\w+?_(\d+)`)
+
 func nestedQuantVar(t, name string) bool {
-	rest := strings.ReplaceAll(t, name, "")
-	return strings.Contains(rest, "q_")
+	own := 0
+	if m := reQVar.FindStringSubmatch(name); m != nil {
+		own, _ = strconv.Atoi(m[1])
+	}
+	for _, m := range reQVar.FindAllStringSubmatch(t, -1) {
+		n, _ := strconv.Atoi(m[1])
+		if n > own {
+			return true
+		}
+	}
+	return false
 }
 
 func (fr *Frame) ctxPkg(ctx *specCtx) string {
@@ -547,7 +579,9 @@ func (fr *Frame) evalIdent(name string, ctx *specCtx) SV {
 				el := a.Type().(*types.Pointer).Elem()
 				return goSV(Val{T: el, S: g.load(ctx.st, g.addrOfPtr(rv), el)})
 			}
-			fail("spec: local %s is not live at this point", name)
+			// not allocated on this path (declared in a loop body or a branch not taken): unconstrained
+			el := a.Type().(*types.Pointer).Elem()
+			return goSV(g.havocVal("dead_"+sanitize(name), el))
 		}
 	}
 	return fr.evalGlobalIdent(name, ctx)
@@ -768,6 +802,12 @@ func (fr *Frame) evalBinary(x *SBinary, ctx *specCtx) SV {
 	}
 	a, b := fr.evalSpec(x.X, ctx), fr.evalSpec(x.Y, ctx)
 	switch x.Op {
+	case "===":
+		// identical values (for strings: the very same string value, stronger than Go's ==)
+		if isIntLike(a) && isIntLike(b) {
+			return SV{Term: "(= " + g.asMath(a) + " " + g.asMath(b) + ")", K: svBool}
+		}
+		return SV{Term: "(= " + a.Term + " " + b.Term + ")", K: svBool}
 	case "==", "!=":
 		t := fr.specEq(a, b, ctx)
 		if x.Op == "!=" {
@@ -933,6 +973,9 @@ func (fr *Frame) evalCall(x *SCall, ctx *specCtx) SV {
 	case "strfloat":
 		g.needStrNum = true
 		return goSV(Val{T: types.Typ[types.Float64], S: "(str_float " + arg(0).Term + ")"})
+	case "rematch": // rematch(re *regexp.Regexp, s string): the regular expression matches
+		g.needReMatch = true
+		return SV{Term: "(re_match " + arg(0).Term + " " + arg(1).Term + ")", K: svBool}
 	case "strcmp":
 		return SV{Term: g.strCompare(arg(0).Term, arg(1).Term), K: svMath}
 	case "bytes": // bytes(b): view []byte as string
@@ -948,6 +991,15 @@ func (fr *Frame) evalCall(x *SCall, ctx *specCtx) SV {
 		}
 		return SV{Term: "(> " + a.Term + " " + ctx.old.heap.get(g, g.topKey()) + ")", K: svBool}
 	}
+	// conversion to a type of the current package or a predeclared type
+	if p := fr.pkgFor(ctx); p != nil {
+		if tn, ok := p.Scope().Lookup(x.Fun).(*types.TypeName); ok {
+			return fr.specConv(tn.Type(), x, ctx)
+		}
+	}
+	if tn, ok := types.Universe.Lookup(x.Fun).(*types.TypeName); ok && x.Fun != "error" {
+		return fr.specConv(tn.Type(), x, ctx)
+	}
 	// user pure function
 	pkg := fr.ctxPkg(ctx)
 	pf := g.P.specs.Pures[pkg+"."+x.Fun]
@@ -961,9 +1013,60 @@ func (fr *Frame) evalCall(x *SCall, ctx *specCtx) SV {
 	if pf == nil {
 		fail("spec: unknown function %s", x.Fun)
 	}
-	name := g.declarePure(pf)
 	if len(x.Args) != len(pf.Params) {
 		fail("spec: %s expects %d arguments", x.Fun, len(pf.Params))
+	}
+	if pf.Macro {
+		if pf.Body == nil {
+			fail("spec: macro %s has no body", pf.Name)
+		}
+		mc := *ctx
+		mc.bound = map[string]SV{}
+		mc.pkg = pf.Pkg
+		mc.call = nil
+		mc.kind = ctxPure
+		var lets []string
+		for i, p := range pf.Params {
+			a := arg(i)
+			// coerce to the declared parameter type
+			if p.T.Kind == "name" && p.T.Pkg == "" && p.T.Name == "int" {
+				a = SV{Term: g.asMath(a), K: svMath}
+			} else if a.Nil {
+				tt := g.resolveType(p.T, pf.Pkg)
+				a = SV{Term: g.S.zero(tt), K: svGo, T: tt}
+			} else if a.T != nil && !isIface(a.T) && a.K != svMath {
+				if tt := g.resolveType(p.T, pf.Pkg); isIface(tt) {
+					a = SV{Term: g.S.box(a.T, a.Term), K: svGo, T: tt}
+				}
+			}
+			// share large argument terms through a let-binding instead of duplicating them
+			if len(a.Term) > 40 && a.A == nil {
+				ln := g.fresh("mv")
+				lets = append(lets, "("+ln+" "+a.Term+")")
+				a.Term = ln
+			}
+			mc.bound[p.Name] = a
+		}
+		r := fr.evalSpec(pf.Body, &mc)
+		if len(lets) > 0 {
+			r.Term = "(let (" + strings.Join(lets, " ") + ") " + r.Term + ")"
+		}
+		if pf.Ret.Kind == "name" && pf.Ret.Pkg == "" && pf.Ret.Name == "int" {
+			if len(lets) > 0 && r.K != svMath {
+				// convert inside the let
+				r.Term = g.asMath(r)
+				r.K = svMath
+			}
+			return SV{Term: g.asMath(r), K: svMath}
+		}
+		return r
+	}
+	name := g.declarePure(pf)
+	if pf.Opaque && ctx.st != nil && g.entry != nil {
+		if d := ctx.st.heap.dirty; d != "" && d != "false" {
+			// the function is defined over the entry heap: its use here is only meaningful if the heap is unchanged
+			g.oblige("heapframe", pf.Name, ctx.st.path, not(d), "opaque specification function "+pf.Name+" is used where the heap must still equal the entry heap")
+		}
 	}
 	var args []string
 	for i := range x.Args {
@@ -977,8 +1080,40 @@ func (fr *Frame) evalCall(x *SCall, ctx *specCtx) SV {
 }
 
 // evalMethodCall: x.M(args) in a spec — only accessor-like library methods, evaluated by inlining.
+// specConv: T(x) conversion between integer types / to a named type with the same underlying type.
+func (fr *Frame) specConv(tt types.Type, x *SCall, ctx *specCtx) SV {
+	g := fr.g
+	if len(x.Args) != 1 {
+		fail("spec: conversion takes one argument")
+	}
+	a := fr.evalSpec(x.Args[0], ctx)
+	if _, _, ok := intInfo(tt); ok && isIntLike(a) {
+		return goSV(Val{T: tt, S: g.fromMath(g.asMath(a), tt)})
+	}
+	if isIface(tt) {
+		if a.T != nil && !isIface(a.T) {
+			return SV{Term: g.S.box(a.T, a.Term), K: svGo, T: tt}
+		}
+		return SV{Term: a.Term, K: svGo, T: tt}
+	}
+	if a.T != nil && g.S.sortOf(a.T) == g.S.sortOf(tt) {
+		return goSV(Val{T: tt, S: a.Term})
+	}
+	fail("spec: unsupported conversion to %s", tt)
+	return SV{}
+}
+
 func (fr *Frame) evalMethodCall(x *SCall, ctx *specCtx) SV {
 	g := fr.g
+	if id, ok := x.Recv.(*SIdent); ok {
+		if _, bound := ctx.bound[id.Name]; !bound && !fr.isValueName(id.Name, ctx) {
+			if p := g.lookupPkg(id.Name, fr.pkgFor(ctx)); p != nil {
+				if tn, ok := p.Scope().Lookup(x.Fun).(*types.TypeName); ok {
+					return fr.specConv(tn.Type(), x, ctx)
+				}
+			}
+		}
+	}
 	recv := fr.evalSpec(x.Recv, ctx)
 	if recv.K != svGo {
 		fail("spec: method call on non-Go value")
@@ -1082,6 +1217,46 @@ func (g *Gen) declarePure(pf *PureFunc) string {
 		g.pureDecls = append(g.pureDecls, fmt.Sprintf("(declare-fun %s (%s) %s)", name, strings.Join(sorts, " "), ret))
 		return name
 	}
+	if pf.Opaque {
+		// uninterpreted + triggered defining axiom; the body is evaluated on the entry heap
+		g.pureDecls = append(g.pureDecls, fmt.Sprintf("(declare-fun %s (%s) %s)", name, strings.Join(sorts, " "), ret))
+		var trig []string
+		ctx.trig = &trig
+		body := g.coerce(fr.evalSpec(pf.Body, ctx), pf.Ret, pf.Pkg)
+		var anames []string
+		for _, p := range pf.Params {
+			anames = append(anames, "a_"+p.Name)
+		}
+		app := "(" + name + " " + strings.Join(anames, " ") + ")"
+		pats := " :pattern (" + app + ")"
+		seen := map[string]bool{}
+		for _, t := range trig {
+			all := true
+			for _, an := range anames {
+				_ = an
+			}
+			if all && !seen[t] && !strings.Contains(t, "q_") && g.goodPatternDeep(t, 0) {
+				// usable only if it mentions every parameter that is not determined otherwise: keep those mentioning the last (index) parameter
+				if len(anames) > 0 && strings.Contains(t, anames[len(anames)-1]) {
+					seen[t] = true
+					// a multi-pattern completes missing variables with the application itself is not possible; require all params
+					ok := true
+					for _, an := range anames {
+						if !strings.Contains(t, an) {
+							ok = false
+						}
+					}
+					if ok {
+						pats += " :pattern (" + t + ")"
+					}
+				}
+			}
+		}
+		// the axiom refers to entry-heap constants declared in the script body: emit it there
+		g.emit(fmt.Sprintf("(assert (forall (%s) (! (= %s %s)%s)))", strings.Join(binders, " "), app, body, pats))
+		g.note("opaque specification function " + pf.Name + " is defined over the entry heap (used in invariants only)")
+		return name
+	}
 	if specCalls(pf.Body, pf.Name) {
 		// recursive: uninterpreted + defining axiom
 		g.pureDecls = append(g.pureDecls, fmt.Sprintf("(declare-fun %s (%s) %s)", name, strings.Join(sorts, " "), ret))
@@ -1166,7 +1341,8 @@ func (g *Gen) intToFloat(n SV, bits int) string {
 		es, sb = 8, 24
 	}
 	if g.mode == ModeInt {
-		return fmt.Sprintf("((_ to_fp %d %d) RNE (to_real %s))", es, sb, g.asMath(n))
+		g.needI2F = true
+		return fmt.Sprintf("(i2f%d %s)", bits, g.asMath(n))
 	}
 	return fmt.Sprintf("((_ to_fp %d %d) RNE %s)", es, sb, g.asMath(n)) // signed 128-bit
 }
@@ -1185,3 +1361,39 @@ func (g *Gen) fdenotes(f SV, n SV) string {
 		"(fp.eq (fp.roundToIntegral RTZ "+f.Term+") "+f.Term+")",
 		"(= ((_ fp.to_sbv 128) RTZ "+f.Term+") "+m+")")
 }
+
+func is64(t types.Type) bool {
+	b, _, ok := intInfo(t)
+	return ok && b == 64
+}
+
+// goodPattern: SMT patterns may not contain boolean connectives / ite.
+func (g *Gen) goodPatternDeep(t string, depth int) bool {
+	if !goodPattern(t) {
+		return false
+	}
+	if depth > 6 {
+		return false
+	}
+	// names introduced by define-fun are macros: their bodies become part of the pattern
+	for _, m := range reDefName.FindAllString(t, -1) {
+		if body, ok := g.defs[m]; ok {
+			if !g.goodPatternDeep(body, depth+1) {
+				return false
+			}
+		}
+	}
+	return true
+}
+
+var reDefName = regexp.MustCompile(`[A-Za-z][A-Za-z0-9_]*_\d+`)
+
+func goodPattern(t string) bool {
+	for _, bad := range []string{"(not ", "(and ", "(or ", "(ite ", "(=> ", "(= ", "(<= ", "(< "} {
+		if strings.Contains(t, bad) {
+			return false
+		}
+	}
+	return true
+}
+
